@@ -104,12 +104,15 @@ type request struct {
 	gotErrVal bool // Unmarshal/Iter returned a stanza.Error
 	panicked  string
 	done      chan struct{}
-	release   chan struct{} // closed by the harness to let a holding caller close its response
-	holding   chan struct{} // closed by the caller once it has the response and holds it
-	holdOnce  sync.Once
-	readToks  []string // what the caller read after the start element (read == "all")
-	readErr   error    // the error that ended that reading
-	iterItems int      // Iter entries: children iterated
+	// the response this request obtained and has closed (kept for a second,
+	// deferred-style Close later on)
+	closedResp io.Closer
+	release    chan struct{} // closed by the harness to let a holding caller close its response
+	holding    chan struct{} // closed by the caller once it has the response and holds it
+	holdOnce   sync.Once
+	readToks   []string // what the caller read after the start element (read == "all")
+	readErr    error    // the error that ended that reading
+	iterItems  int      // Iter entries: children iterated
 }
 
 func (r *request) id() string { return "r" + strconv.Itoa(r.k) }
@@ -123,6 +126,8 @@ type tcase struct {
 	// the session speaks the content namespace of external components
 	// (jabber:component:accept), as the sessions of the component package do
 	component bool
+	// requesters close the responses they are done with a second time later on
+	closeAgain bool
 	layered    bool
 	reqs       []*request
 	ord        []int // order in which the peer deals with the requests
@@ -181,6 +186,7 @@ func genCase(t *rapid.T) tcase {
 		}
 		tc.reqs = append(tc.reqs, r)
 	}
+	tc.closeAgain = rapid.Bool().Draw(t, "closeAgain")
 	tc.ord = rapid.Permutation(seq(n)).Draw(t, "order")
 	if rapid.IntRange(0, 2).Draw(t, "tail") == 0 {
 		tc.tailSendFails = rapid.SampledFrom([]string{"iq", "message", "presence"}).Draw(t, "tailKind")
@@ -201,7 +207,7 @@ func seq(n int) []int {
 
 func (tc tcase) String() string {
 	var sb strings.Builder
-	fmt.Fprintf(&sb, "component-namespace=%v s2s=%v session=%q layered=%v answer-order=%v then-Close-and-a-failing-%q-request=%v", tc.component, tc.s2s, tc.negotiated, tc.layered, tc.ord, tc.tailSendFails, tc.tailSendFails != "")
+	fmt.Fprintf(&sb, "second-close-of-finished-responses=%v component-namespace=%v s2s=%v session=%q layered=%v answer-order=%v then-Close-and-a-failing-%q-request=%v", tc.closeAgain, tc.component, tc.s2s, tc.negotiated, tc.layered, tc.ord, tc.tailSendFails, tc.tailSendFails != "")
 	for _, r := range tc.reqs {
 		fmt.Fprintf(&sb, "\n  req %s: %s scenario=%s reply=%s read=%s hold=%v context-ends-while-held=%v early=%v ns=%q", r.id(), r.entry, r.scen, r.reply, r.read, r.hold, r.cancelHeld, r.early, r.nsForm)
 	}
@@ -361,6 +367,7 @@ func (r *request) run(s *xmpp.Session, ns string) {
 				}
 			}
 			_ = resp.Close()
+			r.closedResp = resp
 		}
 	})
 	r.returned.Store(true)
@@ -595,6 +602,24 @@ func check(t interface {
 				time.Sleep(3 * time.Millisecond)
 				if hl.count(q.serial) != 0 {
 					fail("req %s holds its response open (not closed yet; context ended meanwhile: %v) but the serve loop went on to the next stanza n=%s", r.id(), r.cancelHeld, q.serial)
+				}
+				if tc.closeAgain {
+					// requesters that are done close their responses once more (an
+					// explicit Close followed by a deferred one): that concerns
+					// nobody else's response
+					for _, r2 := range tc.reqs {
+						if r2 == r || !r2.returned.Load() || r2.closedResp == nil {
+							continue
+						}
+						if p := ev.Guard(func() { _ = r2.closedResp.Close() }); p != "" {
+							fail("req %s closed its (already closed) response a second time while req %s held a later response open: %s", r2.id(), r.id(), p)
+						}
+						ev.Class("second-close-while-a-later-response-is-held")
+					}
+					time.Sleep(3 * time.Millisecond)
+					if hl.count(q.serial) != 0 {
+						fail("req %s holds its response open; after other requesters closed their own, earlier responses a second time the serve loop went on to the next stanza n=%s", r.id(), q.serial)
+					}
 				}
 			case <-r.done:
 				// Unmarshal helpers and failed calls never hold anything
